@@ -369,4 +369,67 @@ theorem creditControl_money_x (a f : Bool) (tariffs : List Rating.Tariff) (supi 
         | some m => simp only [Option.map_some, Option.some.injEq]; omega
       · intro _ _ _; trivial
 
+/-! ### no overdraft while a server is unreachable -/
+
+/-- One usage with a server unreachable: no account becomes negative (no compliance of the consumer is needed:
+    the only account request still made is a reservation, which the server limits to the balance). -/
+theorem usageStep_nonneg_x {a f : Bool} {accts : Abmf.Store} {tariffs : List Rating.Tariff} {supi : Bytes}
+    {trigs : List Nat} {groups : List (Int × RgState)} {u : Usage}
+    (ok : usageOKx a f { accts := accts, tariffs := tariffs } supi trigs groups u = true)
+    (hdown : ¬ (a = true ∧ f = true)) (hN : NonNeg accts) :
+    NonNeg (acctsNext a f tariffs supi trigs accts groups u) := by
+  cases a with
+  | false => exact hN
+  | true =>
+    have hf : f = false := by cases f <;> simp_all
+    subst hf
+    have hse : seenEnv true false accts tariffs = { accts := accts, tariffs := [] } := rfl
+    simp only [acctsNext, hse, if_true]
+    unfold usageOKx at ok
+    unfold usageStep
+    by_cases hon : anyOnline u.cs = true
+    · simp only [hon, if_true, not_true_eq_false, if_false, Bool.false_eq_true, Bool.and_false] at ok ⊢
+      cases hb : balOf accts supi (u32 u.rg) with
+      | none => simp [hb] at ok
+      | some b =>
+        simp only [hb, Bool.and_eq_true, decide_eq_true_eq, Bool.and_true] at ok
+        obtain ⟨⟨⟨⟨hs, hrg32⟩, hmode⟩, hrr⟩, hbr⟩ := ok
+        rcases hmode with hm | hm
+        · simp only [hm, if_true]
+          obtain ⟨b', c1, _, c3, c4⟩ := reserve_rf_down (u := u) (st := entryState trigs groups u) hs hb
+            (totalUsed_lt u.cs) hbr (by rw [entryState_reserved]; exact hrr)
+          intro supi' rg' v hv
+          by_cases hk : supi' = supi ∧ rg' = u32 u.rg
+          · rw [hk.1, hk.2, c1] at hv
+            cases hv
+            exact c3 (hN _ _ _ hb)
+          · rw [c4 _ _ hk] at hv
+            exact hN _ _ _ hv
+        · have h21 : ¬ ((2 : Nat) = 1) := by decide
+          simp only [hm, h21, if_false, if_true]
+          rw [(debit_rf_down accts supi u (entryState trigs groups u) (totalUsed u.cs)).1]
+          exact hN
+    · simp only [hon, Bool.false_eq_true, if_false, not_false_eq_true, if_true]
+      exact hN
+
+theorem creditControl_nonneg_x (a f : Bool) (tariffs : List Rating.Tariff) (supi : Bytes) (trigs : List Nat)
+    (hdown : ¬ (a = true ∧ f = true)) (us : List Usage) : ∀ (accts : Abmf.Store) (groups : List (Int × RgState)),
+    ccOKx a f tariffs supi trigs accts groups us = true → NonNeg accts →
+    NonNeg (if a then (creditControl (if f then tariffs else []) supi trigs (if a then accts else []) groups us).1
+            else accts) := by
+  cases a with
+  | false => intro _ _ _ hN; exact hN
+  | true =>
+    induction us with
+    | nil => intro accts groups _ hN; exact hN
+    | cons u r ih =>
+      intro accts groups hok hN
+      simp only [ccOKx, Bool.and_eq_true] at hok
+      obtain ⟨h1, h2⟩ := hok
+      have hN1 := usageStep_nonneg_x h1 hdown hN
+      have := ih _ _ h2 hN1
+      simp only [seenEnv, acctsNext, if_true] at this ⊢
+      simp only [creditControl]
+      exact this
+
 end Chf.Charging
